@@ -70,11 +70,15 @@ pub struct LiftSpec {
 
 #[derive(Deserialize, Debug, Clone)]
 pub struct OutlineSpec {
+    /// function (short name) containing `let <var> = <chain>;`
     pub func: String,
+    pub var: String,
+    /// name of the outlined function and the argument list of the call that replaces the chain
     pub name: String,
-    pub params: String,
     pub args: String,
-    pub ret: String,
+    /// sha256 (first 16 hex digits) of the token text of the outlined expression at the pinned commit
+    #[serde(default)]
+    pub sha: String,
 }
 
 #[derive(Deserialize, Debug, Clone)]
@@ -263,6 +267,21 @@ fn select(file: &File, sel: &str) -> std::result::Result<Vec<Item>, String> {
                 }
             }
             let mut im = merged.ok_or("impl not found")?;
+            // associated types of a trait impl (`type Item = X;`): `Self::Item` is replaced by X when the impl is emitted as inherent
+            let mut assoc: Vec<(String, Type)> = vec![];
+            for it in &file.items {
+                if let Item::Impl(ii) = it {
+                    let tn = type_name(&ii.self_ty);
+                    let tr = ii.trait_.as_ref().map(|t| t.1.segments.last().unwrap().ident.to_string());
+                    if tn == ty_name && tr.as_deref() == trait_name {
+                        for m in &ii.items {
+                            if let ImplItem::Type(t) = m {
+                                assoc.push((t.ident.to_string(), t.ty.clone()));
+                            }
+                        }
+                    }
+                }
+            }
             if let Some(list) = &fns {
                 let mut picked = vec![];
                 for want in list {
@@ -273,6 +292,27 @@ fn select(file: &File, sel: &str) -> std::result::Result<Vec<Item>, String> {
                     picked.push(m.clone());
                 }
                 methods = picked;
+            }
+            if !assoc.is_empty() {
+                struct Assoc<'x>(&'x Vec<(String, Type)>);
+                impl<'x> VisitMut for Assoc<'x> {
+                    fn visit_type_mut(&mut self, ty: &mut Type) {
+                        if let Type::Path(p) = ty {
+                            if p.qself.is_none() && p.path.segments.len() == 2 && p.path.segments[0].ident == "Self" {
+                                let name = p.path.segments[1].ident.to_string();
+                                if let Some((_, t)) = self.0.iter().find(|(n, _)| *n == name) {
+                                    *ty = t.clone();
+                                    return;
+                                }
+                            }
+                        }
+                        visit_mut::visit_type_mut(self, ty);
+                    }
+                }
+                let mut a = Assoc(&assoc);
+                for m in methods.iter_mut() {
+                    a.visit_impl_item_mut(m);
+                }
             }
             im.items = methods;
             im.trait_ = None; // R8: trait impls are emitted as inherent impls
